@@ -89,9 +89,12 @@ def is_top(v):
     return v is None or "top" in v
 
 
+MAY_NODE_WITH_TOP = [True]
+
+
 def has_node(v):
     """The value may be a tree node and nothing about it is unknown."""
-    return v is not None and "node" in v and "top" not in v
+    return v is not None and "node" in v and ("top" not in v or MAY_NODE_WITH_TOP[0])
 
 
 def elem(v):
